@@ -25,6 +25,24 @@ func VDescribe(texts []string) *VRouteSet {
 
 func VSplitPath(path string) []string { return vSplitPath(path) }
 
+// VCanonicalText: the canonical text of a route as the statement defines it (the
+// tokens in order, one blank after ':' and ','), from the harness parser's AST.
+func VCanonicalText(text string) string {
+	r, err := vParseRoute(text)
+	if err != nil {
+		return text
+	}
+	out := ""
+	for _, s := range r.Segments {
+		out += "/"
+		if s.Optional {
+			out += "?"
+		}
+		out += vSegText(s)
+	}
+	return out
+}
+
 func (s *VRouteSet) Len() int          { return len(s.routes) }
 func (s *VRouteSet) Text(i int) string { return s.routes[i].text }
 
